@@ -585,7 +585,10 @@ func nearMiss(cfg *RunCfg, n string) (string, string) {
 // any mapped name: URI punctuation, escapes, blanks, control bytes, dot elements, non-ASCII.
 var wireTokens = []string{"?", "?x=1", "?/../other", "#", "#frag", "&", "&a=b", "=", "%", "%2f", "%2F", "%5f", "%00",
 	" ", "\t", "\n", "\x00", "\x7f", ".", "..", "/..", "/.", "//", "/", "\\", ";", ";v=1", ":", "@", "+", "-", "~", "*", "!",
-	"$", ",", "'", "\"", "(", ")", "[", "]", "{", "}", "<", ">", "|", "^", "`", "\u00e9", "\u4e16", "\xff", "\xc3"}
+	"$", ",", "'", "\"", "(", ")", "[", "]", "{", "}", "<", ">", "|", "^", "`", "\u00e9", "\u4e16", "\xff", "\xc3",
+	// URI syntax: escapes of the delimiters themselves, double escapes, schemes, authorities, fragments
+	"%3f", "%3Fx=1", "%23", "%20", "%20x", "%25", "%2520", "%252f", "%0a", "%0d%0aX-Y: z", "%3a", "%7f", "%", "%4", "%zz",
+	"http://h", "//h", "a:", "a:/", "1:", "??", "?#", "#%zz", "?a=b#c", "*", "\x1f", "\r", "\a", "\v", "\b", "\f"}
 
 // wireMiss builds a near miss from a registered name by appending (mode 0), prepending (1) or
 // inserting (2) a wire token, or (3) by percent-escaping one of the name's own bytes.
@@ -637,11 +640,12 @@ func main() {
 	if os.Getenv("C10_LOG") == "" {
 		Quiet()
 	}
+	initProtos()
 	loadCorpus()
 	lintCorpus()
 	st := NewStats("C10", cfg)
 	st.Rule = "(a) mapper cases = (mapper, prefix, name): names from an identifier generator (upper/lower/digit/underscore runs), nested mapped prefixes, path-like names, wild ASCII, NUL; distinct by (mapper,prefix,name). " +
-		"(b) route cases = one fresh peer per batch with a random conflict-free registration plan over the fixed corpus (nested groups, unknown-handlers on root or group) and, through a live session pair, queries = registered names, same name in the other namespace, near misses (case flip, dropped/added/doubled/swapped separator, prefix, suffix), random strings, empty; distinct by (plan, namespace, name); non-trivial = every query of a batch with at least one registration. " +
+		"(b) route cases = one fresh peer per batch with a random conflict-free registration plan over the fixed corpus (nested groups, unknown-handlers on root or group) and, through a live session pair, queries = registered names, same name in the other namespace, near misses (case flip, dropped/added/doubled/swapped separator, prefix, suffix), names a normalising reader would fold onto a registered one (trailing slash, doubled separator, dot and dot-dot segments), a name one byte around the raw protocol's 255-byte bound, random strings, empty; the session pair of a batch speaks one of the shipped wire protocols (raw, json, protobuf, thrift-binary, http, websocket-json, websocket-protobuf; the first 8 batches cover all of them) and a plugin on the serving peer records the service method every arriving header carries; distinct by (plan, protocol, namespace, name); non-trivial = every query of a batch with at least one registration. " +
 		"(c) conflict cases = a plan whose last-but-k registration collides with an earlier one or with itself, run in a child process"
 	w := NewCaseWriter(cfg)
 	distinct := DistinctSet{}
@@ -705,6 +709,17 @@ type query struct {
 	ns, name, class string
 }
 
+// knownSeen limits how often one known finding is written to the (bounded) failure list.
+var knownSeen = map[string]int{}
+
+func failKnown(st *Stats, index int, key, what, human string) {
+	knownSeen[key]++
+	st.Count("known:" + key)
+	if knownSeen[key] <= 3 {
+		st.Fail(index, key, what, human)
+	}
+}
+
 // routeBatch returns the number of queries evaluated.
 func routeBatch(cfg *RunCfg, st *Stats, w *CaseWriter, distinct DistinctSet, index, batch int) int {
 	r := cfg.Rng
@@ -714,14 +729,25 @@ func routeBatch(cfg *RunCfg, st *Stats, w *CaseWriter, distinct DistinctSet, ind
 	}
 	full := batch < 8
 	pl, _ := genPlan(cfg, kind, full, batch)
+	proto := pickProto(cfg, kind, batch)
 	st.Count("plan:" + kind)
-	human := func() string { b, _ := json.Marshal(pl); return string(b) }
+	st.Count("proto:" + proto + ":" + kind)
+	human := func() string { b, _ := json.Marshal(pl); return "proto=" + proto + " " + string(b) }
 
 	// --- registration on a fresh server peer
-	srv := newPeer(kind)
-	cli := erpc.NewPeer(erpc.PeerConfig{})
-	defer srv.Close()
-	defer cli.Close()
+	setMapper(kind)
+	obsv := newObserver()
+	srv := erpc.NewPeer(erpc.PeerConfig{}, obsv)
+	l := newLink(proto, srv)
+	closed := false
+	closeAll := func() {
+		if !closed {
+			closed = true
+			l.close()
+			srv.Close()
+		}
+	}
+	defer closeAll()
 	per := make([][]string, len(pl.Ops))
 	ret := map[nsName]string{}     // (ns,name) -> hid, as returned by the implementation
 	lastUnk := map[string]string{} // ns -> uid set last (harness's own knowledge)
@@ -731,12 +757,12 @@ func routeBatch(cfg *RunCfg, st *Stats, w *CaseWriter, distinct DistinctSet, ind
 		late = []int{0, 0, 1, 2, 3}[r.Intn(5)]
 	}
 	st.Count(fmt.Sprintf("late-ops:%d", late))
-	var p *Pair
+	connected := false
 	for i, op := range pl.Ops {
-		if p == nil && i >= len(pl.Ops)-late {
+		if !connected && i >= len(pl.Ops)-late {
 			// the remaining operations are performed on a peer that already serves a session
 			// (no request is in flight, so no lookup runs concurrently)
-			p = ServePair(srv, cli)
+			connected = l.connect()
 		}
 		names := applyOp(srv, op)
 		per[i] = names
@@ -803,6 +829,14 @@ func routeBatch(cfg *RunCfg, st *Stats, w *CaseWriter, distinct DistinctSet, ind
 					qs = append(qs, query{other(e.ns), m, cls + "+other-ns"})
 				}
 			}
+			nf := 2
+			if full {
+				nf = 1
+			}
+			for j := 0; j < nf && e.name != ""; j++ {
+				m, cls := pathFold(cfg, e.name)
+				qs = append(qs, query{e.ns, m, cls})
+			}
 			if !full {
 				for j := 0; j < 4; j++ {
 					m, cls := wireMiss(cfg, e.name, wireTokens[r.Intn(len(wireTokens))], r.Intn(4))
@@ -838,12 +872,15 @@ func routeBatch(cfg *RunCfg, st *Stats, w *CaseWriter, distinct DistinctSet, ind
 		qs = append(qs, query{ns, randName(cfg), "random"})
 	}
 	qs = append(qs, query{"call", "", "empty"}, query{"push", "", "empty"}, query{"call", "/", "root"})
+	// the raw protocol has one length byte for the name
+	long := "/" + strings.Repeat("n", 253+r.Intn(4))
+	qs = append(qs, query{"call", long, "long"})
 
-	if p == nil {
-		p = ServePair(srv, cli)
+	if !connected {
+		connected = l.connect()
 	}
-	if p.SrvSess == nil || p.CliSess == nil {
-		st.Fail(index, "session", "could not establish the session pair", human())
+	if !connected {
+		st.Fail(index, "session", "could not establish the session pair over "+proto, human())
 		return 0
 	}
 	rec.Drain()
@@ -853,26 +890,62 @@ func routeBatch(cfg *RunCfg, st *Stats, w *CaseWriter, distinct DistinctSet, ind
 		code  int32
 	}
 	obs := make([]callObs, len(qs))
+	lost := make([]bool, len(qs))
+	barrier := func() *erpc.Status {
+		// frames are read in order, so when this reply is back every push before it has been
+		// read and its handler goroutine is counted
+		var dummy string
+		return l.sess.Call("/verif-barrier", "barrier", &dummy, erpc.WithAddMeta(tokenMeta, "barrier")).Status()
+	}
+	// over raw all pushes are in flight before one barrier (as before); over the other
+	// protocols a frame may end the session, so each push is followed by its own barrier
+	perPushBarrier := proto != "raw"
+	needConn := false
 	for i, q := range qs {
 		tok := fmt.Sprintf("b%dq%d", batch, i)
+		if needConn || !l.sess.Health() {
+			st.Count("reconnect:" + proto)
+			if !l.connect() {
+				st.Fail(index, "session", "could not re-establish the session pair over "+proto, human())
+				return 0
+			}
+			needConn = false
+		}
 		if q.ns == "call" {
 			var res string
-			stt := p.CliSess.Call(q.name, tok, &res).Status()
-			if stt.OK() {
+			stt := l.sess.Call(q.name, tok, &res, erpc.WithAddMeta(tokenMeta, tok)).Status()
+			switch {
+			case stt.OK() && proto == "wspb" && res == "":
+				// the websocket protobuf frame has no status field (finding of C04/C01): a
+				// refused call arrives as OK with an empty result
+				obs[i] = callObs{code: -1}
+			case stt.OK():
 				obs[i] = callObs{ok: true, reply: res}
-			} else {
+			default:
 				obs[i] = callObs{code: stt.Code()}
+				if stt.Code() == erpc.CodeConnClosed {
+					lost[i], needConn = true, true
+				}
 			}
 		} else {
-			p.CliSess.Push(q.name, tok)
+			if pst := l.sess.Push(q.name, tok, erpc.WithAddMeta(tokenMeta, tok)); !pst.OK() {
+				obs[i] = callObs{code: pst.Code()}
+			}
+			if perPushBarrier {
+				if bst := barrier(); !bst.OK() && bst.Code() == erpc.CodeConnClosed {
+					lost[i], needConn = true, true
+				}
+			}
 		}
 	}
-	// barrier: frames are read in order, so when this reply is back every push above has been
-	// read and its handler goroutine is counted; closing the server session waits for them.
-	var dummy string
-	p.CliSess.Call("/verif-barrier", "barrier", &dummy)
-	p.SrvSess.Close()
-	p.CliSess.Close()
+	if needConn || !l.sess.Health() {
+		l.connect()
+	}
+	if l.sess != nil {
+		barrier()
+	}
+	// closing the serving sessions waits for the handler goroutines
+	closeAll()
 	hits := map[string][]string{}
 	for _, h := range rec.Drain() {
 		hits[h.Token] = append(hits[h.Token], h.ID)
@@ -883,9 +956,11 @@ func routeBatch(cfg *RunCfg, st *Stats, w *CaseWriter, distinct DistinctSet, ind
 	for i, q := range qs {
 		tok := fmt.Sprintf("b%dq%d", batch, i)
 		ran := hits[tok]
+		seen := obsv.get(tok)
+		delivered := len(seen) > 0
 		st.Count("query:" + q.ns + ":" + q.class)
 		qin[i] = VL(VS(q.ns), VB([]byte(q.name)))
-		qh := fmt.Sprintf("%s %s %q (%s) plan=%s", kind, q.ns, q.name, q.class, human())
+		qh := fmt.Sprintf("%s proto=%s %s %q (%s) plan=%s", kind, proto, q.ns, q.name, q.class, human())
 
 		// ---- what was observed, in the model's vocabulary
 		runVal := func(id string) string {
@@ -895,21 +970,50 @@ func routeBatch(cfg *RunCfg, st *Stats, w *CaseWriter, distinct DistinctSet, ind
 			}
 			return VL(VS("run"), VB([]byte(id)), VS(k))
 		}
+		byRan := func() string {
+			switch len(ran) {
+			case 0:
+				return VS("none")
+			case 1:
+				return runVal(ran[0])
+			}
+			return VL(VS("many"), VN(int64(len(ran))))
+		}
+		var qv string
 		switch {
 		case q.ns == "call" && obs[i].ok:
-			qout[i] = runVal(obs[i].reply)
+			qv = runVal(obs[i].reply)
+		case q.ns == "call" && proto == "wspb":
+			qv = byRan()
 		case q.ns == "call" && obs[i].code == erpc.CodeNotFound:
-			qout[i] = VS("notfound")
+			qv = VS("notfound")
 		case q.ns == "call" && obs[i].code == erpc.CodeBadMessage:
-			qout[i] = VS("badmsg")
+			qv = VS("badmsg")
 		case q.ns == "call":
-			qout[i] = VL(VS("status"), VN(int64(obs[i].code)))
-		case len(ran) == 0:
-			qout[i] = VS("none")
-		case len(ran) == 1:
-			qout[i] = runVal(ran[0])
+			qv = VL(VS("status"), VN(int64(obs[i].code)))
 		default:
-			qout[i] = VL(VS("many"), VN(int64(len(ran))))
+			qv = byRan()
+		}
+		switch {
+		case !inModelDomain(proto, q.ns, q.name):
+			qout[i] = VS("outside")
+			st.Count("wire:" + proto + ":outside-model")
+		case !delivered && lost[i]:
+			qout[i] = VL(VS("broken"), byRan())
+			st.Count("wire:" + proto + ":session-lost")
+		case !delivered:
+			qout[i] = VL(VS("refused"), byRan())
+			st.Count("wire:" + proto + ":refused")
+		default:
+			qout[i] = VL(VL(VS("seen"), VB([]byte(seen[0].name))), qv)
+			if seen[0].name == q.name {
+				st.Count("wire:" + proto + ":arrived-unchanged")
+			} else {
+				st.Count("wire:" + proto + ":arrived-changed")
+			}
+		}
+		if len(pl.Ops) > 0 {
+			distinct.Add(fmt.Sprintf("q|%d|%s|%s|%s", batch, proto, q.ns, q.name))
 		}
 
 		// ---- property oracle on the implementation alone
@@ -917,12 +1021,20 @@ func routeBatch(cfg *RunCfg, st *Stats, w *CaseWriter, distinct DistinctSet, ind
 			st.Fail(index, "multi-invoke", fmt.Sprintf("%d handlers ran for one request: %v", len(ran), ran), qh)
 			continue
 		}
+		if len(seen) > 1 {
+			st.Fail(index, "multi-seen", fmt.Sprintf("one request arrived %d times: %q", len(seen), seen), qh)
+			continue
+		}
+		if delivered && seen[0].ns != q.ns {
+			st.Fail(index, "namespace-leak", fmt.Sprintf("a %s request arrived as a %s request", q.ns, seen[0].ns), qh)
+			continue
+		}
 		if q.ns == "call" {
 			if obs[i].ok && (len(ran) != 1 || ran[0] != obs[i].reply) {
 				st.Fail(index, "reply-identity", fmt.Sprintf("reply says %q, handlers that ran: %v", obs[i].reply, ran), qh)
 				continue
 			}
-			if !obs[i].ok && len(ran) != 0 {
+			if !obs[i].ok && obs[i].code != -1 && len(ran) != 0 {
 				st.Fail(index, "status-after-run", fmt.Sprintf("caller saw status %d although handler %v ran", obs[i].code, ran), qh)
 				continue
 			}
@@ -935,13 +1047,54 @@ func routeBatch(cfg *RunCfg, st *Stats, w *CaseWriter, distinct DistinctSet, ind
 			st.Fail(index, "namespace-leak", fmt.Sprintf("%s request ran handler %s of the other namespace", q.ns, got), qh)
 			continue
 		}
-		want, registered := ret[nsName{q.ns, q.name}]
-		switch {
-		case q.name == "" && registered:
-			if got != want {
-				st.Fail(index, "empty-name-unreachable", fmt.Sprintf("handler %s was returned the empty name and cannot be invoked under it (ran: %q)", want, got), qh)
+
+		// which service method the request is for: the caller's string; over httproto the path
+		// of that string read as a URI reference
+		eff, effOK := q.name, true
+		if proto == "http" {
+			eff, effOK = httpTarget(q.name)
+		}
+		if !delivered {
+			// nothing arrived: the sender refused the name, or the session was lost with it
+			switch {
+			case got != "":
+				st.Fail(index, "ran-without-request", fmt.Sprintf("handler %s ran although no request header arrived", got), qh)
+			case obs[i].ok:
+				st.Fail(index, "reply-identity", "the call completed OK although no request header arrived", qh)
+			case proto == "http" && q.ns == "call" && effOK && targetHazard(eff):
+				failKnown(st, index, "http-target-not-escaped", fmt.Sprintf("the request for path %q (asked as %q) was not delivered: status %d, session lost=%v", eff, q.name, obs[i].code, lost[i]), qh)
+			case proto == "http" && q.ns == "push":
+				st.Count("http-push-refused")
+			case effOK && eff != "":
+				if want, registered := ret[nsName{q.ns, eff}]; registered {
+					st.Fail(index, "registered-not-invoked", fmt.Sprintf("name returned for %s; the request was not delivered (status %d)", want, obs[i].code), qh)
+				}
 			}
-		case q.name == "":
+			continue
+		}
+		dname := eff
+		if sn := seen[0].name; !effOK || sn != eff {
+			switch {
+			case effOK && (proto == "json" || proto == "wsjson") && jsonCut(eff, sn):
+				failKnown(st, index, "json-name-truncated", fmt.Sprintf("the caller asked for %q, the serving peer looked up %q", eff, sn), qh)
+				dname = sn
+			case effOK && proto == "http" && targetHazard(eff):
+				failKnown(st, index, "http-target-not-escaped", fmt.Sprintf("the caller asked for path %q (as %q), the serving peer looked up %q", eff, q.name, sn), qh)
+				dname = sn
+			case !effOK:
+				st.Fail(index, "name-altered-in-transit", fmt.Sprintf("the caller's string %q is not a URI reference, yet a request for %q arrived", q.name, sn), qh)
+				dname = sn
+			default:
+				st.Fail(index, "name-altered-in-transit", fmt.Sprintf("the caller asked for %q, the serving peer looked up %q", eff, sn), qh)
+			}
+		}
+		want, registered := ret[nsName{q.ns, dname}]
+		switch {
+		case dname == "" && registered:
+			if got != want {
+				failKnown(st, index, "empty-name-unreachable", fmt.Sprintf("handler %s was returned the empty name and cannot be invoked under it (ran: %q)", want, got), qh)
+			}
+		case dname == "":
 			if got != "" && !strings.HasPrefix(got, "U:") {
 				st.Fail(index, "unregistered-invoked", fmt.Sprintf("empty name ran registered handler %s", got), qh)
 			}
@@ -959,22 +1112,19 @@ func routeBatch(cfg *RunCfg, st *Stats, w *CaseWriter, distinct DistinctSet, ind
 				if got != "" && !strings.HasPrefix(got, "U:") {
 					key = "unregistered-invoked"
 				}
-				st.Fail(index, key, fmt.Sprintf("unregistered name, unknown-handler %s is set; ran %q", lastUnk[q.ns], got), qh)
+				st.Fail(index, key, fmt.Sprintf("unregistered name %q, unknown-handler %s is set; ran %q", dname, lastUnk[q.ns], got), qh)
 			}
 		default:
 			if got != "" {
-				st.Fail(index, "unregistered-invoked", fmt.Sprintf("unregistered name, no unknown-handler; ran %s", got), qh)
-			} else if q.ns == "call" && obs[i].code != erpc.CodeNotFound {
+				st.Fail(index, "unregistered-invoked", fmt.Sprintf("unregistered name %q, no unknown-handler; ran %s", dname, got), qh)
+			} else if q.ns == "call" && proto != "wspb" && obs[i].code != erpc.CodeNotFound {
 				st.Fail(index, "notfound-status", fmt.Sprintf("unregistered name, no unknown-handler; caller saw status %d, not 404", obs[i].code), qh)
 			}
 		}
-		if len(pl.Ops) > 0 {
-			distinct.Add(fmt.Sprintf("q|%d|%s|%s", batch, q.ns, q.name))
-		}
 	}
-	w.Add(VL(VS("route"), VS(kind), planVal(pl), VL(qin...)), VL(VL(VS("ok"), namesVal(per)), VL(qout...)))
+	w.Add(VL(VS("routew"), VS(kind), VS(proto), planVal(pl), VL(qin...)), VL(VL(VS("ok"), namesVal(per)), VL(qout...)))
 	if batch < 2 {
-		st.Samples = append(st.Samples, fmt.Sprintf("route %s: %d operations, %d names, %d queries", kind, len(pl.Ops), len(entries), len(qs)))
+		st.Samples = append(st.Samples, fmt.Sprintf("route %s over %s: %d operations, %d names, %d queries", kind, proto, len(pl.Ops), len(entries), len(qs)))
 	}
 	return len(qs)
 }
